@@ -170,8 +170,7 @@ ShHi128(r) == Zeros(16) \o SubSeq(r, 1, Len(r) - 16)
 RECURSIVE XorRBlocks(_, _, _, _)
 \* acc xor r_k xor r_{k+1} xor ... xor r_to
 XorRBlocks(r, k, to, acc) ==
-    IF k > to THEN acc
-    ELSE XorRBlocks(r, k + 1, to, TLCEval([j \in 1..16 |-> acc[j] ^^ r[16 * (k - 1) + j]]))
+    IF k > to THEN acc ELSE XorRBlocks(r, k + 1, to, XorBytes(acc, RBlock(r, k)))
 
 WblEncRound(th, n, i, r) ==
     LET s  == XorRBlocks(r, 2, n - 1, RBlock(r, 1))                                          \* 1)
